@@ -40,6 +40,7 @@ def wipe_sequence(fb, chk):
     p = max(oks, key=lambda x: len(x.effects))
     seq = []
     creates = []
+    truncates = []
     for ef in p.effects:
         if ef['kind'] != 'call' or ef['tracing']:
             continue
@@ -63,6 +64,12 @@ def wipe_sequence(fb, chk):
             seq.append(('fill', desc))
         elif nm in ('create', 'open') or 'OpenOptions' in ef['callee']:
             creates.append(ef['callee'])
+            if ef['callee'].endswith('File::create'):
+                truncates.append('File::create (create + truncate)')
+            if ef['callee'].endswith('OpenOptions::truncate') and len(ef['args']) > 1 and psi.is_int_const(ef['args'][1]) and ef['args'][1][1] == 1:
+                truncates.append('OpenOptions::truncate(true)')
+        elif nm in ('set_len', 'ftruncate'):
+            truncates.append('%s(%s)' % (nm, fmt(ef['args'][-1])[:30]))
     # the constant new() passes as segsize
     segarg = None
     eng2 = common.mk_engine(fb, no_inline=lambda x: x.name in ('is_usable_segment', 'wipe', 'mmap_segment_at'))
@@ -70,7 +77,7 @@ def wipe_sequence(fb, chk):
         for ef in q.effects:
             if ef['kind'] == 'call' and ef['callee'].endswith('::wipe') and psi.is_int_const(ef['args'][1]):
                 segarg = ef['args'][1][1]
-    return {'seq': seq, 'where': w.where(0), 'segsize_arg': segarg, 'creates': creates, 'path': p, 'body': w}
+    return {'seq': seq, 'where': w.where(0), 'segsize_arg': segarg, 'creates': creates, 'truncates': truncates, 'path': p, 'body': w}
 
 
 def check_new(fb, chk, rule_prefix='C04'):
@@ -151,7 +158,7 @@ def run(ctx, chk):
         chk.missing('C04.T5', 'usability probe')
     else:
         chk.saw(probe)
-        eng = common.mk_engine(fb, no_inline=lambda x: True)
+        eng = common.mk_engine(fb, no_inline=lambda x: x.name == 'new' and (x.impl_self or '').endswith('ShmReader'))
         hit = False
         for p in eng.run(probe):
             for ef in p.effects:
@@ -160,6 +167,12 @@ def run(ctx, chk):
                     from_path = 'path' in fmt(ef['args'][0]) or any('path' in fmt(e2['args'][0]) for e2 in p.effects if e2['kind'] == 'call' and e2['args'])
                     chk.ob('C04.T5', 'probe:is-the-client-open-routine', from_path, ef['site'][2],
                            'the probe calls ShmReader::new(%s)' % fmt(ef['args'][0])[:60])
+            open_ok = any(t[0] == 't' and t[1] == 'discr' and t[2][0][0] == 't' and t[2][0][1] == 'call' and
+                          t[2][0][2][0].endswith('ShmReader::new') and op == '==' and v == 0 for t, op, v, _ in p.conds)
+            if open_ok and p.kind == 'return':
+                chk.ob('C04.T5', 'probe:open-ok-implies-usable', p.value[0] == 'agg' and p.value[2] == 'Ok', p.where[2],
+                       'on a path where ShmReader::new succeeded the probe returns %s%s' % (
+                           fmt(p.value)[:50], '' if p.value[2] == 'Ok' else ' -- a segment clients can open would be wiped by a restarted daemon'))
             if p.kind == 'return' and p.value[0] == 'agg' and p.value[2] == 'Ok':
                 opened = any(t[0] == 't' and t[1] == 'discr' and t[2][0][0] == 't' and t[2][0][1] == 'call' and
                              t[2][0][2][0].endswith('ShmReader::new') and op == '==' and v == 0 for t, op, v, _ in p.conds)
@@ -238,13 +251,18 @@ def run(ctx, chk):
         fill_ok = len(fills) == 1 and fills[0][1] == 'vec![0; Sub(segsize, %d)]' % hdr['size'] and seq.index(fills[0]) == len(typed)
         chk.ob('C04.T6', 'wipe:zero-fill-to-declared-size', fill_ok, info['where'], 'body fill: %s' % (fills[0][1][:120] if fills else None))
         chk.ob('C04.T6', 'wipe:creates-the-file-itself', any('create' in c for c in info['creates']), info['where'], 'file opened by %s' % info['creates'])
+        chk.ob('C04.T6', 'wipe:truncates-to-the-documented-size', bool(info['truncates']), info['where'],
+               'wipe %s' % ('truncates via %s' % info['truncates'] if info['truncates'] else
+                            'never truncates the file: a longer unusable file keeps its old length and trailing bytes instead of the documented layout'))
     # ---- T4 odd start (C11 evaluated on odd values), reader guard table (C03.G1), and T8: the probe
     # (= the open decision list, C16.V1-V3) rejects a file only for the documented reasons -- any
     # extra reason would make a restarted daemon wipe a segment its predecessor left valid
     from . import C11, C03, C16
-    for mod, rules, tag in ((C11, ('C11.P1', 'C11.P2', 'C11.P3', 'C11.P4'), 'C04.T4'), (C03, ('C03.G1',), 'C04.T7'),
-                            (C16, ('C16.V1', 'C16.V2', 'C16.V3'), 'C04.T8')):
+    imports = () if getattr(chk, '_nested', False) else ((C11, ('C11.P1', 'C11.P2', 'C11.P3', 'C11.P4'), 'C04.T4'), (C03, ('C03.G1',), 'C04.T7'),
+                            (C16, ('C16.V1', 'C16.V2', 'C16.V3'), 'C04.T8'))
+    for mod, rules, tag in imports:
         sub = type(chk)('C04', LEVEL, chk.tier)
+        sub._nested = True
         getattr(mod, 'run_rules', mod.run)(ctx, sub)
         for o in sub.obs:
             if o['rule'] in rules and o['nontrivial']:
